@@ -324,7 +324,7 @@ fn to_bsig(s: &Signature) -> BitcoinSignature {
 }
 
 /// one operation: returns (coq op term, json description, observation)
-fn do_op(sys: &mut Sys, rng: &mut Rng, extremes: bool) -> (String, serde_json::Value, Obs) {
+fn do_op(sys: &mut Sys, rng: &mut Rng, extremes: bool, script: Option<(u64, u64)>) -> (String, serde_json::Value, Obs) {
     let est = sys.estate();
     let next = est.as_ref().map(|e| e.next_holder_commit_num).unwrap_or(0);
     let next_c = est.as_ref().map(|e| e.next_counterparty_commit_num).unwrap_or(0);
@@ -344,7 +344,7 @@ fn do_op(sys: &mut Sys, rng: &mut Rng, extremes: bool) -> (String, serde_json::V
     };
     if !sys.is_ready() {
         // stub: mostly set the channel up, sometimes poke it
-        return match rng.below(6) {
+        return match if script.is_some() { 5 } else { rng.below(6) } {
             0 => {
                 let n = near(rng, 0);
                 let node = sys.node.clone();
@@ -391,7 +391,10 @@ fn do_op(sys: &mut Sys, rng: &mut Rng, extremes: bool) -> (String, serde_json::V
     // the rest probe around the counters
     let mut choice = rng.below(100);
     let mut forced: Option<u64> = None;
-    if rng.chance(9, 20) {
+    if let Some((c, n)) = script {
+        choice = c;
+        forced = Some(n);
+    } else if rng.chance(9, 20) {
         let has_next = est.as_ref().map(|e| e.next_holder_commit_info.is_some()).unwrap_or(false);
         let closed = est.as_ref().map(|e| e.channel_closed).unwrap_or(false);
         if rng.chance(1, 2) && !closed {
@@ -736,17 +739,46 @@ fn run(args: &Args) {
             Some(&"policy-commitment-previous-revoked") => "WPrevRevoked",
             _ => "WNone",
         };
+        // the first cases replay a corpus of scripted histories: (choice, number) per step
+        let corpus: Vec<(u32, Vec<(u64, u64)>)> = vec![
+            // RevokeCommitmentTx with commitment_number 2^64-1 after the initial commitment was validated
+            (5, vec![(99, 0), (0, 0), (95, u64::MAX)]),
+            // a look at commitment next+1 through the composite handler
+            (5, vec![(99, 0), (0, 0), (30, 0), (84, 2)]),
+            (4, vec![(99, 0), (0, 0), (30, 0), (84, 2)]),
+        ];
+        let script: Option<Vec<(u64, u64)>> = corpus.get(case).map(|c| c.1.clone());
+        let proto = corpus.get(case).map(|c| c.0).unwrap_or(proto);
+        let warn: Vec<&str> = if script.is_some() { vec![] } else { warn };
+        let warn_coq = if script.is_some() { "WNone" } else { warn_coq };
         let mut sys = Sys::new(case, proto, &warn);
-        let len = 4 + rng.below(max_len) as usize;
+        let len = script.as_ref().map(|s| s.len()).unwrap_or(4 + rng.below(max_len) as usize);
         let mut ops = vec![];
         let mut obs = vec![];
         let mut jops = vec![];
         let mut mon = Monitor::default();
         let mut aborted = false;
-        for _ in 0..len {
+        for step_no in 0..len {
             // out-of-range extremes only under the default filter: with a downgraded tag the request goes on
             // into transaction building, whose own arithmetic is outside this model
-            let (op, j, o) = do_op(&mut sys, &mut rng, warn.is_empty());
+            let before_fp = fingerprint(&sys.node);
+            let before_store = store_dump(&sys.world.persister);
+            let (op, j, o) = do_op(&mut sys, &mut rng, warn.is_empty(), script.as_ref().and_then(|s| s.get(step_no).copied()));
+            // C10: a refused request changes nothing; C11: what the request left is durable
+            if o.st == "Refused" && warn.is_empty() {
+                let mut d = fingerprint_diff(&before_fp, &fingerprint(&sys.node));
+                d.extend(store_diff(&before_store, &store_dump(&sys.world.persister)));
+                if !d.is_empty() {
+                    mon.violations.push(format!("C10: refused {} changed: {}", op, d.join("; ")));
+                }
+            }
+            if o.st != "Abort" && op != "Restart" {
+                let shadow = sys.world.restart(&sys.node_id);
+                let d = fingerprint_diff(&fingerprint(&sys.node), &fingerprint(&shadow));
+                if !d.is_empty() && !mon.violations.iter().any(|v| v.starts_with("C11")) {
+                    mon.violations.push(format!("C11: after {} ({}) a restart would differ: {}", op, o.st, d.join("; ")));
+                }
+            }
             let kind = op.split(' ').next().unwrap().to_string();
             let e = kinds.entry(kind).or_insert((0, 0, 0));
             match o.st {
